@@ -294,6 +294,32 @@ CHECKS = {
    technique="Coq proof (invariant over the event list: table/wire/counter consistency, once-only returns) + event-level "
              "differential correspondence on the real dispatcher + concurrent request runs against scripted real responders",
    ref="5/C17"),
+ "C19": dict(
+   text="Coq theorems over Models/Abi.v: (1) the contract ABI encoding (head / tail, offsets, length words, right padding) of the "
+        "argument lists that UpdateRandomness, DataReturn, RegisterGroupPubKey, Commit and Reveal build (signature split by "
+        "ToBigInt into big-endian x, y; request id as the value of its bytes; traffic type as uint8 of the index): decoding "
+        "the produced calldata yields exactly the intended arguments for all values (C19_abi_roundtrip, C19_sig_coords); "
+        "(2) handleReq's loop over the RPC endpoints with its classification of error texts: every endpoint receives a call at "
+        "most once (C19_sent_once), nothing is sent and the answer does not change after an accept, revert or "
+        "insufficient-funds answer whatever endpoints follow (C19_no_resend), any other answer moves on to the next live "
+        "endpoint and the caller gets the last answer (C19_retry_next, C19_dead_endpoint_skipped). Tie: a REAL ethAdaptor "
+        "(NewEthAdaptor + Connect) against 1..3 in-process JSON-RPC / WebSocket endpoints (go-ethereum rpc server answering the "
+        "bridge look-ups, eth_getTransactionCount, eth_sendRawTransaction): (a) each call with generated arguments (0, 2^256-1, "
+        "leading zero bytes, results of 0..1 MiB, indices that do not fit uint8): the calldata of the raw transaction the "
+        "endpoint received is compared byte-for-byte with the extracted model, and judged independently by decoding the "
+        "transaction with go-ethereum (recipient, recovered sender, chain id, gas limit / price, method, ABI-unpacked arguments); "
+        "(b) every assignment of {accept, revert, insufficient funds, nonce failure, other error} to 1..3 endpoints, followed by "
+        "a second call on the same adaptor (endpoints switched off stay off): which endpoints received the call, the "
+        "caller's result class and the switched-off endpoints are compared with the model and judged (at most one accept, "
+        "nothing after a final answer, at most once per endpoint, nil error iff accepted).",
+   note=TB + "The bindings' own ABI packing and transaction signing are go-ethereum code, observed (decoded calldata and "
+        "recovered sender are what is compared), not modelled. The code recognises revert / funds / nonce answers by error-text "
+        "substrings; the model copies that classification and the endpoints produce several spellings. 'use of closed network "
+        "connection' is in the model but cannot be produced faithfully by the in-process endpoint.",
+   technique="Coq proof (ABI encode/decode round trip by induction over the argument list with offset invariant; fail-over loop "
+             "lemmas) + byte-level differential correspondence of calldata and fail-over outcomes against a real adaptor on "
+             "in-process JSON-RPC endpoints",
+   ref="5/C19"),
  "C15": dict(
    text="Coq theorems over the Gallina model of writeTo/readFrom (Models/Framing.v) where a connection is an arbitrary list of "
         "chunks: for every list of payloads of 1..2^20 bytes and EVERY chunking of the concatenated frames the reader returns "
